@@ -138,6 +138,14 @@ def r3_reclaim_on_stop(ctx):
         for s in starts:
             reach = f.reachable(f.succ[s] if evs else [0], cut_blocks=rec, cut_edges=exc_edges)
             leak = [x for x in f.returns() if x in reach]
+            if leak and evs:
+                # the reclaim may also come first: the whole function runs under the stream lock and none of the reclaimers
+                # consults the state the stop event changes — accept when every exit that passed the event also passed a reclaimer
+                def on_term(us, bi, t, s=s, rec=rec):
+                    return us | (1 if bi == s else 0) | (2 if bi in rec else 0)
+                exits, ins, parent = core.scan(f, 0, None, on_term)
+                if all((us & 2) for (bi, us, rc, st) in exits if us & 1):
+                    leak = []
             if leak:
                 ok = False
                 wit = core.compress_path(f, f.path_between(s, leak[0], cut_blocks=rec, cut_edges=exc_edges) or [])
